@@ -10,6 +10,9 @@ import Mathlib.Algebra.BigOperators.Field
 import Mathlib.LinearAlgebra.Matrix.NonsingularInverse
 import Mathlib.Tactic.NormNum
 import Mathlib.Tactic.FinCases
+import Mathlib.LinearAlgebra.FiniteDimensional.Lemmas
+import Mathlib.LinearAlgebra.Matrix.ToLin
+import Mathlib.LinearAlgebra.Dimension.Constructions
 
 open Matrix Finset BigOperators
 
@@ -323,6 +326,39 @@ theorem intersect_independent (p₁ : Matrix (Fin k₁) (Fin n) K) (p₂ : Matri
   rcases i with i | i
   · simpa [Matrix.mulVec, Matrix.toRows₁] using congrFun a0 i
   · simpa [Matrix.mulVec, Matrix.toRows₂] using congrFun b0 i
+
+/-- **expected dimension**: under the full kernel contract (the columns of `ker` are a basis of
+the kernel of `spansᵀ`) and transversality (the two spanning sets together span `Kⁿ`), the
+number of returned rows is `k₁ + k₂ - n` -/
+theorem intersect_dim (p₁ : Matrix (Fin k₁) (Fin n) K) (p₂ : Matrix (Fin k₂) (Fin n) K)
+    (ker : Matrix (Fin k₁ ⊕ Fin k₂) (Fin d) K) (hker : (spans p₁ p₂)ᵀ * ker = 0)
+    (hspan : ∀ v, v ᵥ* spans p₁ p₂ = 0 → ∃ c, v = ker *ᵥ c)
+    (hk : ∀ c, ker *ᵥ c = 0 → c = 0)
+    (htrans : ∀ w : Fin n → K, ∃ u, u ᵥ* spans p₁ p₂ = w) :
+    d + n = k₁ + k₂ := by
+  let f : (Fin k₁ ⊕ Fin k₂ → K) →ₗ[K] (Fin n → K) := Matrix.vecMulLinear (spans p₁ p₂)
+  have hf : ∀ u, f u = u ᵥ* spans p₁ p₂ := fun u => rfl
+  have hr : LinearMap.range f = ⊤ := LinearMap.range_eq_top.2 (fun w => by
+    obtain ⟨u, hu⟩ := htrans w; exact ⟨u, hu⟩)
+  have h1 := LinearMap.finrank_range_add_finrank_ker f
+  have hin : ∀ c, ker *ᵥ c ∈ LinearMap.ker f := by
+    intro c
+    rw [LinearMap.mem_ker, hf, ← Matrix.mulVec_transpose, Matrix.mulVec_mulVec, hker, Matrix.zero_mulVec]
+  let g : (Fin d → K) →ₗ[K] LinearMap.ker f := LinearMap.codRestrict _ (Matrix.mulVecLin ker) hin
+  have hg : Function.Bijective g := by
+    constructor
+    · intro c c' h
+      have h' : ker *ᵥ c = ker *ᵥ c' := congrArg Subtype.val h
+      have : ker *ᵥ (c - c') = 0 := by rw [Matrix.mulVec_sub, h', sub_self]
+      exact sub_eq_zero.1 (hk _ this)
+    · rintro ⟨v, hv⟩
+      rw [LinearMap.mem_ker, hf] at hv
+      obtain ⟨c, hc⟩ := hspan v hv
+      exact ⟨c, Subtype.ext hc.symm⟩
+  have e := (LinearEquiv.ofBijective g hg).finrank_eq
+  rw [hr, finrank_top, ← e] at h1
+  simp only [Module.finrank_fintype_fun_eq_card, Fintype.card_fin, Fintype.card_sum] at h1
+  omega
 
 /-- elementwise on composite subspaces: unit `i` of the result is the intersection of units `i` -/
 theorem intersectElementwise_get (P₁ : List (Matrix (Fin k₁) (Fin n) K))
